@@ -333,7 +333,8 @@ func genC17(r *rng, thorough bool, emit func(FlowScenario)) {
 func genC18(r *rng, thorough bool, emit func(FlowScenario)) {
 	t := &tokGen{r: r}
 	// … including nodes whose BaseNode is the zero value (never went through NewBaseNode): cancellation-free runs only
-	for _, k := range append(leafKinds(), zeroBaseKinds()...) {
+	nilPtrKind := LeafCfg{Retryable: false, Fb: "absent", PrepS: "direct", ExecS: "direct", PostS: "direct", Impl: "nilptr"}
+	for _, k := range append(append(leafKinds(), zeroBaseKinds()...), nilPtrKind) {
 		for pk, post := range []string{"=", "=default", "=custom", "= ", "=\n\t"} {
 			_ = pk
 			cfg := k
